@@ -8,6 +8,8 @@ fail=0
 for d in /verif/seeded/$pat/; do
   name=$(basename $d)
   prop=$(python3 -c "import json;print(json.load(open('$d/meta.json'))['property'])")
+  excl=$(python3 -c "import json;print(json.load(open('$d/meta.json')).get('excluded',''))")
+  if [ -n "$excl" ]; then echo "$name: excluded ($excl)"; continue; fi
   M=/tmp/ufw-seed.$$
   rm -rf $M; mkdir -p $M
   (cd /repo && tar cf - --exclude=_build --exclude=.git .) | tar xf - -C $M
